@@ -62,9 +62,6 @@ pub fn parse_arguments(to_parse: &str) -> Result<Vec<Unifiable>, String> {
         }
     }
 
-    let mut has_digit     = false;
-    let mut has_non_digit = false;
-    let mut has_period    = false;
     let mut open_quote    = false;
 
     let mut num_quotes    = 0;
@@ -118,33 +115,11 @@ pub fn parse_arguments(to_parse: &str) -> Result<Vec<Unifiable>, String> {
                     }
                     num_quotes = 0;
 
-                    let term = make_term(s2, has_digit, has_non_digit, has_period)?;
+                    // An argument is a term like any other.
+                    let term = parse_term(s2)?;
                     term_list.push(term);
                     argument    = "".to_string();
-                    has_digit   = false;
-                    has_non_digit = false;
-                    has_period  = false;
                     start = i + 1;    // past comma
-                }
-                else if ch >= '0' && ch <= '9' {
-                    argument.push(ch);
-                    has_digit = true
-                }
-                else if ch == '+' || ch == '-' {
-                    argument.push(ch);
-                    // Plus or minus might be in front of a number: +7, -3.8
-                    // In this case, it is part of the number.
-                    let mut next_ch = 'x';
-                    if i < length_chrs - 1 { next_ch = chrs[i + 1]; }
-                    let mut prev_ch = ' ';
-                    if i > 0 { prev_ch = chrs[i]; }
-                    if prev_ch == ' ' && (next_ch < '0' || next_ch > '9') {
-                        has_non_digit = true;
-                    }
-                }
-                else if ch == '.' {
-                    argument.push(ch);
-                    has_period = true
                 }
                 else if ch == '\\' {  // escape character, must include next character
                     if i + 1 < length_chrs {
@@ -162,7 +137,6 @@ pub fn parse_arguments(to_parse: &str) -> Result<Vec<Unifiable>, String> {
                 }
                 else {
                     argument.push(ch);
-                    if ch > ' ' { has_non_digit = true; }
                 }
             }
             else {
@@ -185,7 +159,7 @@ pub fn parse_arguments(to_parse: &str) -> Result<Vec<Unifiable>, String> {
             None => {},
         }
 
-        let term = make_term(s2, has_digit, has_non_digit, has_period)?;
+        let term = parse_term(s2)?;
         term_list.push(term);
     }
 
@@ -389,11 +363,14 @@ pub fn parse_term(to_parse: &str) -> Result<Unifiable, String> {
         return Ok(sfunc);
     }
 
-    for ch in &chrs {
+    for (i, ch) in chrs.iter().enumerate() {
         if *ch >= '0' && *ch <= '9' {
             has_digit = true;
         } else if *ch == '.' {
             has_period = true;
+        } else if i == 0 && (*ch == '+' || *ch == '-') {
+            // Plus or minus might be in front of a number: +7, -3.8
+            // In this case, it is part of the number.
         } else {
             has_non_digit = true;
         }
